@@ -137,7 +137,8 @@ def check_subquery(new_tbl, child_tbl, *, is_right: bool = False):
                 modified_new_tbl._ast = new_chain[0]
                 return (modified_new_tbl, test_tbl)
 
-            if isinstance(nd, verbs.SubqueryMarker | verbs.Join):
+            # (the operands of a union are separate queries: an `Alias` inside one of them is no place for the marker)
+            if isinstance(nd, verbs.SubqueryMarker | verbs.Join | verbs.Union):
                 break
             chain.append(nd)
 
